@@ -39,6 +39,13 @@ structure Lice (α : Type) where
   super : α
   alive : Bool
 
+/-- deterministic swimming velocity of a louse: up (negative) in light `Eb ≥ 0.01`, overridden by
+down (positive) when the water is fresher than its tolerance -/
+def liceW (swimVel Eb salt r : α) (nauplie : Bool) : α :=
+  let W : α := if 0.01 ≤ Eb then -swimVel else 0.0
+  let W := if !nauplie && decide (salt < 28.0 - r * 8.0) then swimVel else W
+  if nauplie && decide (salt < 32.0 - r * 2.0) then swimVel else W
+
 /-- `update_ibm` of salmon lice. `light0` is LADiM's `light.surface_light` at the particle (input),
 `r` the uniform draw of `state_rand`, `xi` the normal draw (none when `D == 0`). -/
 def liceUpdate (D dt stateDt mortFactor k swimVel temp salt light0 r : α) (xi : Option α)
@@ -47,10 +54,7 @@ def liceUpdate (D dt stateDt mortFactor k swimVel temp salt light0 r : α) (xi :
   let age := p.age + temp * stateDt / 86400.0
   let days := p.days + 1.0 * (stateDt / 86400.0)
   let Eb := light0 * exp (-k * p.z)
-  let W : α := if 0.01 ≤ Eb then -swimVel else 0.0
-  let nauplie := decide (age < 40.0)
-  let W := if !nauplie && decide (salt < 28.0 - r * 8.0) then swimVel else W
-  let W := if nauplie && decide (salt < 32.0 - r * 2.0) then swimVel else W
+  let W := liceW swimVel Eb salt r (decide (age < 40.0))
   let W := match xi with | none => W | some x => W + diffVel D dt x
   let z := mirrorCap 20.0 19.0 (p.z + W * dt)
   ⟨z, age, days, super, p.alive && decide (age < 170.0)⟩
